@@ -290,6 +290,7 @@ def replyForbidsStoring (ri : ReqIn) (rp : ReplyIn) : Option String :=
   else if !Spec.hasDirective Spec.rfc hd (str% "max-age") && !Header.has hd sExpires && !Spec.hasDirective Spec.rfc hd (str% "public") &&
           !Spec.heuristicallyCacheable.contains st then some "no explicit freshness and not heuristically cacheable"
   else if rp.bodyFail ≥ 0 && !rp.resp.body.isEmpty then some "body could not be read completely"
+  else if rp.short then some "body ended before the length the reply declares"
   else none
 
 /-- an entry write caused by a 304 -/
